@@ -245,6 +245,7 @@ type World struct {
 	C     Consts
 	Seed  int64
 	Label string
+	Path  string // "raw": the gnosis handlers registered as keyper.go does; "wrapped": as the proposed repair GNO-1 would
 
 	InstanceID uint64
 	GasUnit    uint64
@@ -272,6 +273,7 @@ type World struct {
 	judged   map[string]bool // cache of the cryptographic judgements (share / key bytes are judged once)
 	hashTok  map[string][]ID // identities hash (hex) -> tokens, for the current_decryption_trigger projection
 	bad      []string        // what the projections could not explain since the last line
+	badKeys  []string        // stored shares / keys that do not verify since the last line
 }
 
 func detBytes(label string, n int) []byte {
@@ -286,12 +288,12 @@ func detBytes(label string, n int) []byte {
 
 // NewWorld builds the world at the beginning of slot c.First: chain = the root block, every keyper
 // seeded with what a finished DKG and the chain observer leave behind, syncers at the root.
-func NewWorld(c Consts, seed int64, label string) (*World, error) {
+func NewWorld(c Consts, seed int64, label string, path string) (*World, error) {
 	if c.NK != nKeypers || c.T != threshold || c.MinGas != 1 {
 		return nil, fmt.Errorf("the concretiser supports NK=%d, T=%d, abstract MinGas=1", nKeypers, threshold)
 	}
 	ctx, cancel := context.WithCancel(context.Background())
-	w := &World{C: c, Seed: seed, Label: label, ctx: ctx, cancel: cancel, hashTok: map[string][]ID{}, judged: map[string]bool{}, slot: c.First,
+	w := &World{C: c, Seed: seed, Label: label, Path: path, ctx: ctx, cancel: cancel, hashTok: map[string][]ID{}, judged: map[string]bool{}, slot: c.First,
 		plain: []byte("verif: a message encrypted to the eon key")}
 	w.hi = make([]int, nKeypers)
 	w.InstanceID = 1000 + uint64(seed%977+977)%977
@@ -361,11 +363,6 @@ func NewWorld(c Consts, seed int64, label string) (*World, error) {
 		Keypers: shdb.EncodeAddresses(w.addrs), Threshold: threshold})
 	w.an = p2p.VerifGossipvalNewMessaging()
 	w.an.AddMessageHandler(gnosisaccessnode.NewDecryptionKeysHandler(&gnosisaccessnode.Config{InstanceID: w.InstanceID, MaxNumKeysPerMessage: maxKeysMsg}, storage))
-	// self-check of the independent signature judge against the repository's SSZ hashing
-	if err := w.checkSSZ(); err != nil {
-		w.Close()
-		return nil, err
-	}
 	return w, nil
 }
 
@@ -467,9 +464,13 @@ func (w *World) assemble(nd *node) {
 	nd.kpr = gnosis.VerifGnosisSlotNewKeyper(nd.cfg, nd.pool, w.bc, nd.fromK)
 	nd.raw = &simMessaging{w: w, idx: nd.idx, real: p2p.VerifGossipvalNewMessaging()}
 	hs, hk := gnosis.VerifGnosisSlotHandlers(nd.pool)
-	nd.raw.AddMessageHandler(hs)
-	nd.raw.AddMessageHandler(hk)
 	mw := gnosis.NewMessagingMiddleware(nd.raw, nd.pool, nd.cfg)
+	if w.Path == "wrapped" {
+		mw.AddMessageHandler(hs, hk)
+	} else { // keyper.go Start: messageSender.AddMessageHandler(...) before the middleware exists
+		nd.raw.AddMessageHandler(hs)
+		nd.raw.AddMessageHandler(hk)
+	}
 	cc := coreConfig{addr: w.addrs[nd.idx], inst: w.InstanceID}
 	mw.AddMessageHandler(
 		epochkghandler.NewDecryptionKeyHandler(cc, nd.pool),
@@ -693,7 +694,10 @@ func (w *World) sigOK(sig []byte, signer int, slot, ptr uint64, ids [][]byte, in
 	return "ok"
 }
 
-func (w *World) checkSSZ() error {
+// CheckSSZ compares the independent signature judge's hash tree root with the repository's (a
+// difference is not an infrastructure problem: the judge then finds the signatures not genuine).
+func CheckSSZ() error {
+	w := &World{InstanceID: 1234}
 	ids := [][]byte{slotIdentity(3), detBytes("ssz-check", 52)}
 	var pre []identitypreimage.IdentityPreimage
 	for _, b := range ids {
@@ -705,7 +709,7 @@ func (w *World) checkSSZ() error {
 			return err
 		}
 		if got := sszRoot(w.InstanceID, uint64(cfgIdx), 3, 1, ids[:n]); got != want {
-			return fmt.Errorf("NOTE-SSZ: the repository's hash tree root of SlotDecryptionSignatureData differs from the SSZ specification (%d identities)", n)
+			return fmt.Errorf("the repository's hash tree root of SlotDecryptionSignatureData differs from the SSZ specification (%d identities)", n)
 		}
 	}
 	return nil
@@ -1039,7 +1043,7 @@ func (w *World) table(i int) J {
 				continue
 			}
 			if !w.shareGood(r.EpochID, r.DecryptionKeyShare, int(r.KeyperIndex)) {
-				w.note("k%d holds a share of keyper %d for %v that does not verify", i, r.KeyperIndex, t)
+				w.badKeys = append(w.badKeys, fmt.Sprintf("k%d holds a share of keyper %d for %v that does not verify", i, r.KeyperIndex, t))
 			}
 			if relevant(t) {
 				sh = append(sh, J{"id": t, "from": int(r.KeyperIndex)})
@@ -1052,7 +1056,7 @@ func (w *World) table(i int) J {
 				continue
 			}
 			if !w.keyGood(r.EpochID, r.DecryptionKey) {
-				w.note("k%d holds a key for %v that is not the epoch secret key", i, t)
+				w.badKeys = append(w.badKeys, fmt.Sprintf("k%d holds a key for %v that is not the epoch secret key", i, t))
 			}
 			if relevant(t) {
 				ky = append(ky, t)
@@ -1115,6 +1119,15 @@ func (w *World) Tables() []J {
 func (w *World) takeBad() []string {
 	b := w.bad
 	w.bad = nil
+	if b == nil {
+		b = []string{}
+	}
+	return b
+}
+
+func (w *World) takeBadKeys() []string {
+	b := w.badKeys
+	w.badKeys = nil
 	if b == nil {
 		b = []string{}
 	}
